@@ -51,3 +51,52 @@ Definition insert_after_last_pos (x : string) (ps : list param) : list param :=
   end.
 (** before fix ad2306c: appended at the end of the list *)
 Definition insert_at_end (x : string) (ps : list param) : list param := ps ++ [(Pos, x)].
+
+(** ** the text level: where, in the document's bytes, the new name goes when the first
+    parameter is a starred one ([*args] / [**kwargs]).  The parsed node starts at the NAME;
+    the code steps back from there to the first star (resolver.rs
+    [param_insertion_info_from_ast]).  [bytes] is the document, [o] a byte offset. *)
+From Coq Require Import NArith.
+Definition star_b : N := 42%N.
+Definition ws_b (b : N) : bool :=        (* u8::is_ascii_whitespace: space, \t, \n, \x0C, \r *)
+  orb (N.eqb b 32) (orb (N.eqb b 9) (orb (N.eqb b 10) (orb (N.eqb b 12) (N.eqb b 13)))).
+
+(** [while o > 0 && p(bytes[o - 1]) { o -= 1 }] *)
+Fixpoint back_while (p : N -> bool) (bytes : list N) (o : nat) : nat :=
+  match o with
+  | O => O
+  | S o' => match nth_error bytes o' with
+            | Some b => if p b then back_while p bytes o' else o
+            | None => o
+            end
+  end.
+(** [while o < len && p(bytes[o]) { o += 1 }], on explicit fuel *)
+Fixpoint fwd_while (p : N -> bool) (fuel : nat) (bytes : list N) (o : nat) : nat :=
+  match fuel with
+  | O => o
+  | S f => match nth_error bytes o with
+           | Some b => if p b then fwd_while p f bytes (S o) else o
+           | None => o
+           end
+  end.
+
+(** since the fix: back over the blanks between the star(s) and the name, then over the stars *)
+Definition star_start (bytes : list N) (name_start : nat) : nat :=
+  back_while (N.eqb star_b) bytes (back_while ws_b bytes name_start).
+(** before the fix: back over stars and SPACES in any mixture, forward over spaces *)
+Definition star_start_old (bytes : list N) (name_start : nat) : nat :=
+  let p := fun b => orb (N.eqb b star_b) (N.eqb b 32) in
+  fwd_while (N.eqb 32) (List.length bytes) bytes (back_while p bytes name_start).
+(** seeded change S89: [content[..name_start].rfind('*')] *)
+Fixpoint rfind_star (bytes : list N) (o : nat) : nat :=
+  match o with
+  | O => O
+  | S o' => match nth_error bytes o' with
+            | Some b => if N.eqb b star_b then o' else rfind_star bytes o'
+            | None => rfind_star bytes o'
+            end
+  end.
+(** seeded change S102: back over stars and ANY ascii whitespace, forward over space / tab *)
+Definition star_start_s102 (bytes : list N) (name_start : nat) : nat :=
+  let p := fun b => orb (N.eqb b star_b) (ws_b b) in
+  fwd_while (fun b => orb (N.eqb b 32) (N.eqb b 9)) (List.length bytes) bytes (back_while p bytes name_start).
